@@ -359,3 +359,6 @@ func CompareKeyspace(c Cfg, ks *fake.Keyspace, metas []rdbgen.Meta, items []rdbg
 	_ = items
 	return out
 }
+
+// NewBufReader wraps snapshot bytes for a ChannelReader.
+func NewBufReader(data []byte) *bufio.Reader { return bufio.NewReaderSize(bytes.NewReader(data), 4096) }
